@@ -32,6 +32,7 @@ type Prog struct {
 	byName  map[string]*ssa.Function
 	cg      *callgraph.Graph
 	eff     *Effects
+	ranges  map[*ssa.Function]*Range
 	Sizes   types.Sizes
 	IntBits int
 }
@@ -321,4 +322,18 @@ func shortName(f *ssa.Function) string {
 	s = strings.ReplaceAll(s, modPath+"/", "")
 	s = strings.ReplaceAll(s, "github.com/cloudflare/circl/", "circl/")
 	return s
+}
+
+// rangeFor: one prover context per function (used by the term evaluator for
+// offset arithmetic).
+func (p *Prog) rangeFor(fn *ssa.Function) *Range {
+	if p.ranges == nil {
+		p.ranges = map[*ssa.Function]*Range{}
+	}
+	if rg, ok := p.ranges[fn]; ok {
+		return rg
+	}
+	rg := p.NewRange(fn)
+	p.ranges[fn] = rg
+	return rg
 }
